@@ -90,7 +90,7 @@ pub fn gen_case(rng: &mut Rng, bottom: bool) -> Case {
 }
 
 pub fn encode(c: &Case) -> String {
-    let mut s = format!("MULTI FX={} {} {} {} {}", std::env::var("VERIF_FX").unwrap_or_default(), c.w, c.h, c.hz, T0);
+    let mut s = format!("MULTI FX={} {} {} {} {}", crate::common::fx("draw"), c.w, c.h, c.hz, T0);
     for op in &c.ops { s.push_str(" ; "); s.push_str(&op.enc()); }
     s
 }
